@@ -256,6 +256,20 @@ def run_case(case, rec, mon=None):
     kind = case["kind"]
     torch.set_num_threads(1)
     global _UNDER_F64
+    if kind in ("stft", "si") and case["idx"] % 8 == 2 and not _UNDER_F64 and hasattr(torch, "set_float32_matmul_precision"):
+        # another process-wide setting a training program commonly changes: the internal precision of float32 matrix products
+        old_prec = torch.get_float32_matmul_precision()
+        torch.set_float32_matmul_precision("medium")
+        rec.count("cases_under_float32_matmul_precision_medium")
+        _UNDER_F64 = True
+        try:
+            return run_case(case, rec, mon)
+        finally:
+            _UNDER_F64 = False
+            torch.set_float32_matmul_precision(old_prec)
+            if own:
+                monitor.report(rec)
+                monitor.detach_all()
     if kind == "stft" and case["idx"] % 8 == 5 and not _UNDER_F64:
         # a process-wide setting a user may change: the default floating type of new tensors
         old_default = torch.get_default_dtype()
